@@ -4,7 +4,7 @@
 EXTENDS EnumSpec, Json, FP
 CONSTANT ObsFile
 Obs == ndJsonDeserialize(ObsFile)
-P(r) == [tr |-> r.tr, same |-> r.same, src |-> r.src, tgt |-> r.tgt, map |-> r.map, unknown |-> r.unknown, rootErr |-> r.rootErr, pos |-> r.pos, enumOn |-> r.enumOn]
+P(r) == [kind |-> r.kind, tr |-> r.tr, same |-> r.same, src |-> r.src, tgt |-> r.tgt, map |-> r.map, unknown |-> r.unknown, rootErr |-> r.rootErr, pos |-> r.pos, enumOn |-> r.enumOn]
 Cause(p) == IF ~p.enumOn THEN "enum-off" ELSE LET g == Gen(p) IN IF g.fail = "" THEN "model-accepts" ELSE g.fail
 \* C18: fmt is imported exactly when an @error / @panic action is emitted
 Rng(q) == {q[i] : i \in DOMAIN q}
@@ -24,6 +24,7 @@ Finger1(r) ==
       ELSE IF (r.gen = "ok") # EnumGenOK(p)
       THEN {<<"C08", IF EnumGenOK(p) THEN "valid-enum-mapping-rejected" ELSE "invalid-enum-mapping-accepted", Cause(p), r.id>>} ELSE {})
      \cup (IF r.gen = "ok" /\ ~r.compiles THEN {<<"C01", "does-not-compile", "enum", r.id>>} ELSE {})
+  ELSE IF ~EnumGenOK(p) THEN {}              \* an accepted invalid program is reported by its generation record
   ELSE LET e == EnumRun(p, r.x) IN
        IF r.res.k # e.k THEN {<<"C08", "runtime-class-differs", e.k \o "-expected-" \o r.res.k \o "-observed", r.id>>}
        ELSE IF e.k = "val" /\ r.res.v # e.v THEN {<<"C08", "runtime-value-differs", "", r.id>>} ELSE {}
